@@ -8,3 +8,4 @@ INVARIANT LawGuard
 INVARIANT LawShapePolicy
 INVARIANT LawGenerator
 INVARIANT LawKind
+INVARIANT LawImplDeviatesOnlyThere_
